@@ -68,7 +68,7 @@ class Check(RuntimeCheck):
     design_ref = 'DESIGN.md §4.4, §5 C09'
     theorems = ['C09_clone_teardown_ok', 'C09_clone_drop_ok', 'C09_torn_down_drop_silent', 'C09_teardown_marks',
                 'C09_no_verify_disables', 'C09_live_clone_panics', 'C09_other_thread_panics',
-                'C09_verify_on_clone_panics', 'C09_report_matches_verify', 'C09_only_original_can_fail']
+                'C09_verify_on_clone_panics', 'C09_report_matches_verify', 'C09_only_original_can_fail', 'C09_source_teardown_sequence', 'C09_source_teardown', 'C09_source_clone_silent', 'C09_source_live_clone_panics', 'C09_source_drop', 'C09_source_verify', 'C09_source_no_verify', 'C09_source_drop_impl', 'C09_source_verify_impl', 'C09_source_no_verify_impl', 'C09_source_initial_flags', 'C09_source_clone_inst']
 
     def extra(self, rep, tier, seed):
         # library-internal helper clones of default-method delegation (by-value, Rc/Arc, &mut, Pin receivers) must not make the original's verification see a live clone: the compiled delegation cases
